@@ -333,7 +333,7 @@ def install_base(p: Patcher, modules_threading=(), modules_time=()):
 # ---------------------------------------------------------------------- line-level pre-emption
 _MON = getattr(sys, "monitoring", None)
 _TOOL = 4
-_mon_state = {"registered": False, "codes": {}, "instr": set()}
+_mon_state = {"registered": False, "codes": {}, "instr": {}}
 
 
 def _on_line(code, lineno):
@@ -378,9 +378,10 @@ def codes_of_module(m):
     return list(out.values())
 
 
-def enable_monitoring(modules, instr_funcs=()):
-    """Enable local LINE events on the code objects of `modules` (idempotent per code object) and
-    INSTRUCTION events on the functions listed in instr_funcs."""
+def enable_monitoring(modules, instr_funcs=(), instr_on=False):
+    """Enable local LINE events on the code objects of `modules` (idempotent per code object); the
+    functions in instr_funcs additionally get INSTRUCTION events iff instr_on (set explicitly on every
+    call, because local events persist in the process and runs must not depend on earlier runs)."""
     if _MON is None:
         return 0
     if not _mon_state["registered"]:
@@ -397,8 +398,9 @@ def enable_monitoring(modules, instr_funcs=()):
             n += 1
     for f in instr_funcs:
         c = f.__code__
-        if id(c) not in _mon_state["instr"]:
-            _mon_state["instr"].add(id(c))
-            _mon_state["codes"][id(c)] = c
-            _MON.set_local_events(_TOOL, c, _MON.events.LINE | _MON.events.INSTRUCTION)
+        _mon_state["codes"][id(c)] = c
+        want = _MON.events.LINE | (_MON.events.INSTRUCTION if instr_on else 0)
+        if _mon_state["instr"].get(id(c)) != want:
+            _mon_state["instr"][id(c)] = want
+            _MON.set_local_events(_TOOL, c, want)
     return n
